@@ -341,6 +341,9 @@ class Check:
         return self.tier == "quick"
 
     def budget(self, quick: int, thorough: int) -> int:
+        if self.quick and getattr(self, "deep", False):
+            # the modelled source changed (harness/main.py): a deeper stream in the quick tier
+            return max(quick, min(thorough, 2 * quick))
         return quick if self.quick else thorough
 
     # -- reporting --------------------------------------------------------------------
@@ -435,6 +438,7 @@ class Check:
             )
         if getattr(self, "modelled", None):
             cov["modelled_sources"] = source_fingerprints(self.modelled)
+            cov["modelled_sources_changed_since_validation"] = getattr(self, "changed_sources", [])
         if self.explanation:
             cov["explanation"] = self.explanation
         cov.update({k: v for k, v in self.extra_cov.items() if k != "gen_keys"})
